@@ -68,6 +68,12 @@ CHECKS = {
             "comparing with the class ObjectMeta.__new__ built, and by the signature table; the oracle compares child vs the flat class (verdicts, serialization, ==), "
             "isinstance of all ancestors, and ancestors before/after defining, using and reconfiguring the child.",
             "full on the model of class construction; verdict equality child/flat follows because both are the same model class"),
+    "C12": ("Coq theorems over ALL strings (attribute-name shape, ASCII-identifier theorem, not-reserved, class-name shape) with Unicode/reserved tables regenerated from the interpreter and /repo, refuted witnesses for the false halves, vm_compute correspondence over code points + identifier/collision oracle",
+            "C12_attr_shape / C12_attr_ascii_identifier / C12_title_shape hold for every name (any code points), for every unicodedata.name oracle over the "
+            "checked alphabet, on the alnum ranges and the reserved list the translator dumps on each run (closure of the reserved list under '_' is re-proved "
+            "by computation).  Unambiguity and non-ASCII identifier validity are FALSE on the faithful model (C12_*_refuted) and recorded as findings K1-K4.  "
+            "Names.v is tied to the code by evaluating both mappings in Coq on thousands of code points/strings per run.",
+            "full for what holds; the injectivity / non-ASCII / class-name-collision halves are recorded findings"),
 }
 
 REASONS_PENDING = "check under construction in this session: not yet claimed"
